@@ -356,7 +356,22 @@ def length_covers(items):
                 continue
             x = m.group(1)
             # find the term x among the following items (lengths may precede several payloads: n, m, name, value)
-            follow = [render_item(j) for j in its[i + 1:]]
+            follow = []
+            for j in its[i + 1:]:
+                t = render_item(j)
+                # opaque values concatenated in one `+` expression are the same terms appended one after the other
+                parts = [t]
+                if j[0] == 'SYM' and t.startswith('(') and t.endswith(')') and _balanced(t[1:-1]):
+                    parts, d, cur = [], 0, ''
+                    for tok in t[1:-1].split(' '):
+                        if tok == '+' and d == 0:
+                            parts.append(cur.strip())
+                            cur = ''
+                            continue
+                        d += sum(ch in '([{' for ch in tok) - sum(ch in ')]}' for ch in tok)
+                        cur += ' ' + tok
+                    parts.append(cur.strip())
+                follow.extend(parts)
             ok = x in follow
             out.append((ok, render_item(it), x, follow[:4]))
     return out
